@@ -28,6 +28,9 @@ type vfCOp struct {
 	Q  []float32 `json:"q,omitempty"`
 	// search: a text search carrying several queries (bm25 / hybrid / store targets)
 	Multi bool `json:"multi,omitempty"`
+	// search restricted to these documents of the issuing goroutine (ordinals; 0 = an id nobody ever
+	// adds): the id restriction goes through the pooled document filter (vector kinds, bm25)
+	Only []int `json:"only,omitempty"`
 }
 
 type vfC11Case struct {
@@ -41,7 +44,7 @@ type vfC11Case struct {
 	Directed bool        `json:"directed,omitempty"` // store: force the window between choosing the memtable and writing to it
 }
 
-var vfC11Targets = []string{"store", "store_close", "ids", "store_flush_search", "hybrid", "bm25", "store", "metadata", "flat", "hnsw", "ivf", "pq", "ivfpq"}
+var vfC11Targets = []string{"store", "store_close", "ids", "filter_pool", "store_flush_search", "hybrid", "bm25", "store", "metadata", "flat", "hnsw", "ivf", "pq", "ivfpq"}
 
 func vfC11Gen(rt *rapid.T) vfC11Case {
 	c := vfC11Case{}
@@ -82,7 +85,27 @@ func vfC11Gen(rt *rapid.T) vfC11Case {
 			case w < 58 && len(removed) > 0:
 				return vfCOp{Op: "remove", N: removed[rapid.IntRange(0, len(removed)-1).Draw(rt, "rm_again")]}
 			case w < 80:
-				return vfCOp{Op: "search", Q: g.drawNonZero(rt, "q"), Multi: rapid.IntRange(0, 2).Draw(rt, "multi_query") == 0}
+				op := vfCOp{Op: "search", Q: g.drawNonZero(rt, "q"), Multi: rapid.IntRange(0, 2).Draw(rt, "multi_query") == 0}
+				if rapid.IntRange(0, 2).Draw(rt, "restricted") == 0 {
+					op.Multi = false
+					switch rapid.IntRange(0, 3).Draw(rt, "restriction") {
+					case 0:
+						op.Only = []int{0} // matches nothing
+					default:
+						op.Only = append(op.Only, 0)
+						for _, n := range liveN {
+							if rapid.Bool().Draw(rt, "only_this") {
+								op.Only = append(op.Only, n)
+							}
+						}
+						for _, n := range removed {
+							if rapid.IntRange(0, 3).Draw(rt, "only_removed") == 0 {
+								op.Only = append(op.Only, n)
+							}
+						}
+					}
+				}
+				return op
 			case w < 90:
 				return vfCOp{Op: "flush"}
 			default:
@@ -94,7 +117,7 @@ func vfC11Gen(rt *rapid.T) vfC11Case {
 	c.Conf = vfStoreConf{VecKind: "flat", Metric: c.Metric, Dim: c.Dim, HasText: true, HasMeta: true, CompThr: 4}
 	c.Conf.MemLimit = rapid.SampledFrom([]int64{1, 400, 900, 3000}).Draw(rt, "memtable_limit")
 	c.Conf.FlushThr = rapid.SampledFrom([]int64{600, 1500, 1 << 40}).Draw(rt, "flush_threshold")
-	c.Directed = c.Target == "store" && rapid.IntRange(0, 2).Draw(rt, "directed") == 0
+	c.Directed = (c.Target == "store" || c.Target == "store_close") && rapid.IntRange(0, 2).Draw(rt, "directed") == 0
 	return c
 }
 
@@ -106,6 +129,7 @@ type vfStamped struct {
 	ids        []uint32 // search result
 	id         uint32   // the id the op worked on (add / remove)
 	overlap    bool
+	only       map[uint32]bool // id restriction of a search (nil: none)
 }
 
 // vfConcTarget abstracts the nine targets for the workload runner.
@@ -117,9 +141,11 @@ type vfConcTarget struct {
 	search  func(q []float32) ([]uint32, error)
 	// searchMulti: a text search with several queries, every document matches one of them
 	searchMulti func() ([]uint32, error)
-	flush   func() error
-	write   func() error
-	exact   bool // a k=all search must contain every document that is visible
+	// searchOnly: the search restricted to the given ids (nil where the target has no id restriction)
+	searchOnly func(q []float32, ids []uint32) ([]uint32, error)
+	flush      func() error
+	write      func() error
+	exact      bool // a k=all search must contain every document that is visible
 	// store only
 	store           *PersistentHybridIndex
 	removeMayRefuse bool
@@ -152,6 +178,14 @@ func vfBuildConcTarget(c *vfC11Case, dir string) (*vfConcTarget, error) {
 			}
 			return ids, err
 		}
+		t.searchOnly = func(q []float32, only []uint32) ([]uint32, error) {
+			res, err := idx.NewSearch().WithQuery(vfCloneF32(q)).WithK(0).WithNProbes(0).WithDocumentIDs(only...).Execute()
+			ids := make([]uint32, len(res))
+			for i, r := range res {
+				ids[i] = r.GetId()
+			}
+			return ids, err
+		}
 		t.flush = idx.Flush
 		t.write = func() error { _, err := idx.WriteTo(io.Discard); return err }
 	case "bm25":
@@ -160,6 +194,14 @@ func vfBuildConcTarget(c *vfC11Case, dir string) (*vfConcTarget, error) {
 		t.remove = func(id uint32) error { return ix.Remove(id) }
 		t.search = func(q []float32) ([]uint32, error) {
 			res, err := ix.NewSearch().WithQuery("common").WithK(0).Execute()
+			ids := make([]uint32, len(res))
+			for i, r := range res {
+				ids[i] = r.GetId()
+			}
+			return ids, err
+		}
+		t.searchOnly = func(q []float32, only []uint32) ([]uint32, error) {
+			res, err := ix.NewSearch().WithQuery("common").WithK(0).WithDocumentIDs(only...).Execute()
 			ids := make([]uint32, len(res))
 			for i, r := range res {
 				ids[i] = r.GetId()
@@ -314,6 +356,9 @@ func vfC11RunCase(c vfC11Case, ctx *vfCtx) *vfViolation {
 	if c.Target == "ids" {
 		return vfC11AutoIDs(&c, ctx, raceBefore)
 	}
+	if c.Target == "filter_pool" {
+		return vfC11FilterPool(&c, ctx, raceBefore)
+	}
 	if c.Target == "store_close" {
 		return vfC11StoreClose(&c, ctx, filepath.Join(dir, "store"), raceBefore)
 	}
@@ -390,7 +435,20 @@ func vfC11RunCase(c vfC11Case, ctx *vfCtx) *vfViolation {
 					s.id = idOf(g, op.N)
 					s.err = t.remove(s.id)
 				case "search":
-					if op.Multi && t.searchMulti != nil {
+					if len(op.Only) > 0 && t.searchOnly != nil {
+						only := make([]uint32, len(op.Only))
+						for k, n := range op.Only {
+							only[k] = idOf(g, n)
+							if n == 0 {
+								only[k] = 999999 // never added by anyone
+							}
+						}
+						s.only = map[uint32]bool{}
+						for _, id := range only {
+							s.only[id] = true
+						}
+						s.ids, s.err = t.searchOnly(op.Q, only)
+					} else if op.Multi && t.searchMulti != nil {
 						s.ids, s.err = t.searchMulti()
 					} else {
 						s.ids, s.err = t.search(op.Q)
@@ -498,6 +556,9 @@ func vfC11RunCase(c vfC11Case, ctx *vfCtx) *vfViolation {
 			got := map[uint32]bool{}
 			for _, id := range s.ids {
 				got[id] = true
+				if s.only != nil && !s.only[id] {
+					return vfFail("%s: a search restricted to %d ids returned id %d, which is not one of them (%d goroutines)", c.Target, len(s.only), id, G)
+				}
 				l := lives[id]
 				if l == nil {
 					if _, auto := autoIDs.Load(id); !auto {
@@ -516,6 +577,9 @@ func vfC11RunCase(c vfC11Case, ctx *vfCtx) *vfViolation {
 				continue
 			}
 			for id, l := range lives {
+				if s.only != nil && !s.only[id] {
+					continue
+				}
 				if l.addEnd < s.start && (!l.removed || l.rmStart > s.end) && !got[id] {
 					return vfFail("%s: a search (t=%d..%d, %d results) does not return document %d although its add completed at t=%d and %s (%d goroutines%s)", c.Target, s.start, s.end, len(s.ids), id, l.addEnd, vfRemovedNote(l.removed, l.rmStart), G, vfNote(directedNote))
 				}
@@ -784,6 +848,32 @@ func vfC11StoreClose(c *vfC11Case, ctx *vfCtx, dir string, raceBefore int64) *vf
 	G := len(c.Progs)
 	compact := c.Dim == 4
 	ctx.ClassIf(compact, "store_close_with_TriggerCompaction")
+	// directed schedule: enough segments for a compaction, the compaction worker parked after it has
+	// written the merged segment and before it swaps the segment list; Close is called meanwhile
+	var parked, releaseWorker chan struct{}
+	if compact && c.Directed {
+		for i := 0; i < c.Conf.CompThr+1; i++ {
+			if err := st.AddWithID(uint32(1<<29+i), vfCloneF32(c.Vecs[i%len(c.Vecs)]), vfDocText(uint32(i)), map[string]interface{}{"n": i}); err != nil {
+				return vfFail("warm-up add: %v", err)
+			}
+			if err := st.Flush(); err != nil {
+				return vfFail("warm-up flush: %v", err)
+			}
+		}
+		parked, releaseWorker = make(chan struct{}), make(chan struct{})
+		var once sync.Once
+		vfInstallHook(func(name string, args ...any) {
+			if name == "compact:written" {
+				once.Do(func() {
+					close(parked)
+					<-releaseWorker
+				})
+			}
+		})
+		defer vfInstallHook(nil)
+		st.TriggerCompaction()
+		ctx.Class("directed_close_while_compaction_is_parked_at_compact:written")
+	}
 	total := 0
 	for _, p := range c.Progs {
 		total += len(p)
@@ -857,6 +947,17 @@ func vfC11StoreClose(c *vfC11Case, ctx *vfCtx, dir string, raceBefore int64) *vf
 		for opsDone.Load() < int64(total/2) {
 			runtime.Gosched()
 		}
+		if parked != nil {
+			select {
+			case <-parked:
+				go func() {
+					time.Sleep(150 * time.Millisecond) // Close is under way (or waiting for the worker) by now
+					close(releaseWorker)
+				}()
+			case <-time.After(3 * time.Second):
+				close(releaseWorker) // the compaction did not start (nothing to compact): plain close
+			}
+		}
 		closeBegan.Store(clock.Add(1))
 		closeErr = st.Close()
 		closeEnded.Store(clock.Add(1))
@@ -915,7 +1016,7 @@ func vfC11StoreClose(c *vfC11Case, ctx *vfCtx, dir string, raceBefore int64) *vf
 				for _, id := range s.ids {
 					if l := lives[id]; l == nil {
 						// the owner may not have recorded it yet; check ownership arithmetic instead
-						if id < 1<<30 || int(id-1<<30)/1000 >= G {
+						if warm := id >= 1<<29 && id < 1<<29+16; !warm && (id < 1<<30 || int(id-1<<30)/1000 >= G) {
 							return vfFail("store: a search returned id %d, which was never added", id)
 						}
 					}
@@ -938,6 +1039,9 @@ func vfC11StoreClose(c *vfC11Case, ctx *vfCtx, dir string, raceBefore int64) *vf
 	got := map[uint32]bool{}
 	for _, r := range res {
 		got[r.ID] = true
+		if r.ID >= 1<<29 && r.ID < 1<<29+16 {
+			continue // warm-up documents of the directed variant
+		}
 		if lives[r.ID] == nil || !lives[r.ID].added && !lives[r.ID].maybe {
 			return vfFail("store: after reopen the search returns id %d, which was never added successfully", r.ID)
 		}
@@ -960,6 +1064,149 @@ func vfC11StoreClose(c *vfC11Case, ctx *vfCtx, dir string, raceBefore int64) *vf
 		ctx.NonTrivial()
 	}
 	ctx.Count("operations_overlapping_close", int64(overlapped))
+	return nil
+}
+
+// vfC11FilterPool: id restrictions go through one process-wide pool of filter objects shared by all
+// index kinds. Phase 1 (sequential) sends restricted searches of every shape (hits, no hits, unknown
+// ids, untrained / empty index) through every kind, so that whatever each kind hands back to the pool
+// is in it; phase 2 runs restricted searches with DISJOINT id lists from many goroutines on shared
+// indexes: each must get exactly its own documents.
+func vfC11FilterPool(c *vfC11Case, ctx *vfCtx, raceBefore int64) *vfViolation {
+	ctx.Class("target=filter_pool")
+	kind := DistanceKind(c.Metric)
+	G := len(c.Progs)
+	train := c.Train
+	if len(train) == 0 {
+		for i := 0; i < 40; i++ {
+			train = append(train, c.Vecs[i%len(c.Vecs)])
+		}
+	}
+	var idxs []VectorIndex
+	for _, k := range []string{"flat", "hnsw", "ivf", "pq", "ivfpq"} {
+		cc := vfC02Case{Kind: k, Metric: c.Metric, Dim: c.Dim, M: 16, EfC: 100, EfS: 600, NList: 3, NBits: 2, Train: train}
+		if k == "pq" || k == "ivfpq" {
+			cc.M, cc.NList = 2, 2
+		}
+		ut, err := vfBuildIndex(&cc)
+		if err != nil {
+			continue // a kind that cannot be trained on this data takes no part
+		}
+		idxs = append(idxs, ut.idx)
+	}
+	bm := NewBM25SearchIndex()
+	perG := 24
+	idOf := func(g, j int) uint32 { return uint32(1<<30 + g*1000 + j) }
+	for g := 0; g < G; g++ {
+		for j := 0; j < perG; j++ {
+			v := c.Vecs[(g*7+j)%len(c.Vecs)]
+			for _, ix := range idxs {
+				if err := ix.Add(*NewVectorNodeWithID(idOf(g, j), vfCloneF32(v))); err != nil {
+					return vfFail("filter_pool: Add: %v", err)
+				}
+			}
+			if err := bm.Add(idOf(g, j), vfDocText(idOf(g, j))); err != nil {
+				return vfFail("filter_pool: bm25 Add: %v", err)
+			}
+		}
+	}
+	_ = kind
+	problems := make(chan string, 4*G)
+	for round := 0; round < 4; round++ {
+		// phase 1: every kind, restrictions with and without hits
+		for rep := 0; rep < 4; rep++ {
+			for _, ix := range idxs {
+				for _, only := range [][]uint32{{999999}, {idOf(0, 0)}, {999999, idOf(0, 1), idOf(0, 2)}, {5}} {
+					for _, np := range []int{0, 1} {
+						if _, err := ix.NewSearch().WithQuery(vfCloneF32(c.Vecs[rep%len(c.Vecs)])).WithK(rep).WithNProbes(np).WithDocumentIDs(only...).Execute(); err != nil {
+							return vfFail("filter_pool: restricted search: %v", err)
+						}
+					}
+				}
+			}
+			bm.NewSearch().WithQuery("common").WithK(0).WithDocumentIDs(999999).Execute()
+			bm.NewSearch().WithQuery("nothingmatches").WithK(0).WithDocumentIDs(idOf(0, 0)).Execute()
+		}
+		// phase 2
+		var wg sync.WaitGroup
+		start := make(chan struct{})
+		for g := 0; g < G; g++ {
+			wg.Add(1)
+			go func(g int) {
+				defer wg.Done()
+				defer func() {
+					if r := recover(); r != nil {
+						problems <- fmt.Sprintf("goroutine %d: panic: %v", g, r)
+					}
+				}()
+				own := make([]uint32, perG)
+				want := map[uint32]bool{}
+				for j := range own {
+					own[j] = idOf(g, j)
+					want[own[j]] = true
+				}
+				<-start
+				for it := 0; it < 12+len(c.Progs[g])/2; it++ {
+					var ids []uint32
+					if it%3 == 2 {
+						res, err := bm.NewSearch().WithQuery("common").WithK(0).WithDocumentIDs(own...).Execute()
+						if err != nil {
+							problems <- fmt.Sprintf("goroutine %d: bm25 search: %v", g, err)
+							return
+						}
+						for _, r := range res {
+							ids = append(ids, r.GetId())
+						}
+					} else {
+						ix := idxs[(g+it)%len(idxs)]
+						res, err := ix.NewSearch().WithQuery(vfCloneF32(c.Vecs[it%len(c.Vecs)])).WithK(0).WithNProbes(0).WithDocumentIDs(own...).Execute()
+						if err != nil {
+							problems <- fmt.Sprintf("goroutine %d: restricted search: %v", g, err)
+							return
+						}
+						if _, isHNSW := ix.(*HNSWIndex); isHNSW {
+							// approximate kind: only "nothing outside the restriction"
+							for _, r := range res {
+								if !want[r.GetId()] {
+									problems <- fmt.Sprintf("goroutine %d: an hnsw search restricted to its own %d ids returned id %d", g, perG, r.GetId())
+									return
+								}
+							}
+							continue
+						}
+						for _, r := range res {
+							ids = append(ids, r.GetId())
+						}
+					}
+					if len(ids) != perG {
+						problems <- fmt.Sprintf("goroutine %d: a search restricted to its own %d live ids returned %d results (%d goroutines searching with disjoint restrictions)", g, perG, len(ids), G)
+						return
+					}
+					for _, id := range ids {
+						if !want[id] {
+							problems <- fmt.Sprintf("goroutine %d: a search restricted to its own ids returned id %d, which belongs to another goroutine's restriction", g, id)
+							return
+						}
+					}
+				}
+			}(g)
+		}
+		close(start)
+		wg.Wait()
+		select {
+		case p := <-problems:
+			return vfFail("filter_pool: %s", p)
+		default:
+		}
+	}
+	if raceAfter, text := vfRaceLog(); raceAfter > raceBefore {
+		lines := strings.Split(text, "\n")
+		if len(lines) > 60 {
+			lines = lines[len(lines)-60:]
+		}
+		return vfFail("the race detector reported a data race while %d goroutines ran id-restricted searches:\n%s", G, strings.Join(lines, "\n"))
+	}
+	ctx.NonTrivial()
 	return nil
 }
 
